@@ -26,6 +26,25 @@ CHECKS = {
         technique="Rocq proof by induction over the line with the running octet count as invariant; model tied by "
                   "translator (constants) + differential correspondence (extracted OCaml model vs implementation)",
         design="6/C06"),
+    "C07": dict(
+        text=("Theorems in coq/Props/C07.v for ALL code-point strings of any length: (C07_direct) if s does not "
+              "contain backslash+'n' then vText.from_ical(vText(s).to_ical()) = norm(s); (C07_line) if s contains "
+              "none of \\n \\\\ \\, \\; %2C %3A %3B %5C then the value read back from a content line "
+              "(escape_char, escape_string, unescape_string, unescape_char) is norm(s). Both follow from reflective "
+              "certificates (21 and 1856 product states) for the replace chains REGENERATED from parser.py on every "
+              "run, checked by a checker whose soundness is proved once by induction on the input "
+              "(Proofs/ChainProofs.bisim_sound); reordering, dropping or altering a replace changes the obligation. "
+              "Outside the guards the property is refuted in Coq with witnesses (C07_*_refuted) = open known "
+              "findings C07-F1..F3. The CATEGORIES clause and the well-escapedness clause are so far decided by "
+              "correspondence + direct oracle only (partial). Model tied to the code by translator (chains) and "
+              "correspondence of leaf functions and of the three end-to-end paths on all strings of length <= 3 (4 "
+              "thorough) over the 14-symbol critical alphabet plus random long Unicode strings."),
+        note=NOTE_COMMON + "Modelled, not verified: str.replace as the streaming stage machine of Lib/Chain.v; the "
+             "splitting of a content line into name/params/value (Contentline.parts) is covered by correspondence "
+             "here and by C05's model.",
+        technique="Rocq proof by reflective certificate: verified product-state bisimulation checker for replace "
+                  "chains + unverified explorer; chains regenerated from source; differential correspondence",
+        design="6/C07, 3.1"),
 }
 
 PENDING_REASON = "check not built yet in this session (planned as a Rocq proof + correspondence, see DESIGN.md section 6)"
